@@ -15,6 +15,8 @@ SIBLINGS = [
     ("X.repartition(divisions={p}, force=True)", ["[-1, 3, 7]", "[-1, 2, 7]"]),
     ("X.shuffle('a', npartitions={p})", ["2", "4", "7"]),
     ("X.shuffle('a', max_branch={p})", ["2", "3"]),
+    ("X.shuffle('a', shuffle_method='disk').partitions[{p}]", ["[0, 1]", "[2]", "[1, 2]"]),
+    ("X.shuffle('a', shuffle_method='tasks').partitions[{p}]", ["[0, 1]", "[2]", "[1, 2]"]),
     ("X.shuffle({p})", ["'a'", "'c'", "['a', 'c']"]),
     ("X.sum(split_every={p})", ["2", "3", "False"]),
     ("X.a.mean(split_every={p})", ["2", "3"]),
